@@ -1,6 +1,7 @@
 import Tv.GenDrv
 import Tv.Thm.C02
 import Tv.Lemmas.GenSim
+import Tv.Generated
 /-!
 # C02 — the rolling drivers regenerated from view.rs perform the model's callback sequence
 
@@ -249,6 +250,20 @@ theorem applyCalls_iter_of_log {α : Type} (xs : List α) (w : Nat) (hw : 1 ≤ 
   rintro ⟨s, e⟩ _
   simp only []
   cases h : xs[e]? <;> simp [h]
+
+/-! ## the backend overrides run the `*_to` drivers on a buffer of `self.len()` slots -/
+
+/-- every override of a rolling method in backends_impl/vec.rs and ndarray.rs binds `len` to
+`self.len()`, passes the caller's buffer, or a fresh buffer of `len` slots, to the `*_to` driver of
+the same name; arc.rs forwards to the pointee's method of the same name (table re-extracted from
+the sources on every run) -/
+theorem backendOverrides_match :
+    Generated.backendOverrides =
+      (["vec.rs", "ndarray.rs"].flatMap fun f =>
+        ["rolling_custom", "rolling_apply", "rolling2_apply", "rolling_apply_idx", "rolling2_apply_idx"].map fun m =>
+          (f, m, "self.len()", m ++ "_to", m ++ "_to", "len")) ++
+      (["rolling_custom", "rolling_apply", "rolling2_apply", "rolling_apply_idx", "rolling2_apply_idx"].map fun m =>
+          ("arc.rs", m, "forward", m, "", "")) := by decide
 
 theorem iterFunctions_present :
     GenDrv.iterFunctions = ["rolling_apply", "rolling2_apply", "rolling_apply_idx", "rolling2_apply_idx",
